@@ -1,4 +1,8 @@
-"""C11 — Q-cumulant flow equals the defining multi-particle azimuthal correlators. Tie C (hand-written model)."""
+"""C11 — Q-cumulant flow equals the defining multi-particle azimuthal correlators.
+
+Tie T: harness/translate/qcumulant.py regenerates Gen/QCumulant.lean (correlators, cumulants, decision functions and
+the differential bin function) from the current source; tie C: the hand-written model AND the generated functions
+(`gcorr`, `gdflow`) are run by the driver at Float and compared with the real class."""
 import itertools
 import json
 import math
@@ -15,9 +19,16 @@ np.seterr(all="ignore")
 
 
 # ------------------------------------------------------------------ translator (tie T): __calculate_corr
+_LAYOUT = [None]  # meaning of full_event_quantities[i] for k = 2 / 4, as derived by the translator
+
+
 def translate(ctx):
     from translate import qcumulant
-    text, regions = qcumulant.render(common.read_src("flow/QCumulantFlow.py"))
+    _LAYOUT[0] = None
+    src = common.read_src("flow/QCumulantFlow.py")
+    text, regions = qcumulant.render(src)
+    _LAYOUT[0] = qcumulant.feq_layout(src)
+    ctx.cov["full_event_quantities_layout"] = {str(k): ["/".join(map(str, d)) for d in v] for k, v in _LAYOUT[0].items()}
     common.write_if_changed(common.LEAN / "SparkxVerif/Gen/QCumulant.lean", text)
     golden = common.LEAN / "golden/Gen/QCumulant.lean"
     ctx.cov["gen_equals_golden"] = golden.exists() and golden.read_text() == text
@@ -63,6 +74,32 @@ def _private(obj, name):
 
 def real_corr(phis, n, k):
     return float(_private(qc(n, 6, "zero"), "calculate_corr")(phis, k)[0])
+
+
+def real_bin_private(pev, n, k, imag):
+    """v'_n{k} of one bin through the private `__compute_differential_flow_bin` (no random rotation); the argument
+    `full_event_quantities` is built following the layout the translator derived from `differential_flow`"""
+    lay = (_LAYOUT[0] or {}).get(k)
+    if lay is None:
+        raise NoPrivateAccess("layout of full_event_quantities not derived")
+    o = qc(n, k, imag)
+    f = _private(o, "compute_differential_flow_bin")
+    Qn, cc = _private(o, "Qn"), _private(o, "calculate_corr")
+    phi_all = [[p for p, _ in e] for e in pev]
+    phi_poi = [[p for p, fl in e if fl] for e in pev]
+    corr, feq = {}, []
+    for d in lay:
+        if d[0] == "Q":
+            feq.append(Qn(phi_all, d[1] * n))
+        elif d[0] == "M":
+            feq.append([len(e) for e in phi_all])
+        elif d[0] == "corr":
+            if d[1] not in corr:
+                corr[d[1]] = cc(phi_all, d[1])
+            feq.append(corr[d[1]][d[2]])
+        else:
+            raise NoPrivateAccess("opaque element of full_event_quantities")
+    return float(np.real(f(feq, phi_poi, phi_poi)[0]))
 
 
 def real_flow_private(phis, n, k, imag):
@@ -241,7 +278,7 @@ def pevents_for_bin(parts, lo, hi, sel, poi):
 def correspond(ctx):
     rng = ctx.rng
     ctx.rule = ("random event samples (1-4 events, equal and different multiplicities k..9, harmonics 1-4, with and without "
-                "elliptic modulation); ops corr k / flow k imaginary / differential k selector poi; non-trivial = "
+                "elliptic modulation); ops corr k / flow k imaginary / differential k selector poi (hand model `dflow` and generated functions `gdflow`, the latter also against the private bin function); non-trivial = "
                 ">= 2 events of different multiplicity, or a POI restriction that excludes in-bin particles, or an event "
                 "without POI in the bin; distinct by canonical input")
     N = ctx.n(70, 1500)
@@ -282,6 +319,10 @@ def correspond(ctx):
                 pev = pevents_for_bin(parts, bins[b], bins[b + 1], sel, poi)
                 lines.append(f"dflow\t{k}\t{imag}\t{enc_pevents(pev, n)}")
                 meta.append(("dflow", n, k, imag, (pev, realv[b], sel, poi, bins[b:b + 2])))
+                if any(f for e in pev for _, f in e):
+                    # the same bin through the functions GENERATED from the current source
+                    lines.append(f"gdflow\t{k}\t{imag}\t{enc_pevents(pev, n)}")
+                    meta.append(("gdflow", n, k, imag, (pev, realv[b], sel, poi, bins[b:b + 2])))
     outs = common.run_driver("C11", lines)
     for (op, n, k, imag, data), out in zip(meta, outs):
         kind, val = parse_ok(out)
@@ -326,6 +367,32 @@ def correspond(ctx):
             if not ok:
                 ctx.brk("correspondence-broken", f"v_{n}{{{k}}} imaginary={imag}: code {rv!r} vs model {out}",
                         case=dict(op=op, n=n, k=k, imaginary=imag, phis=data))
+        elif op == "gdflow":
+            pev, rv, sel, poi, edges = data
+            some_empty = any(not any(f for _, f in e) for e in pev)
+            case = dict(op=op, n=n, k=k, imaginary=imag, selector=sel, poi=poi, bin=edges, pevents=pev)
+            ctx.case((op, n, k, imag, tuple(tuple(e) for e in pev)), some_empty or poi is not None,
+                     sample=dict(case, code=rv, generated=out))
+            ctx.count(f"gdflow/k={k}/{'some-event-empty' if some_empty else 'all-events-populated'}")
+            # (1) against the public differential_flow (random rotation of every event: looser tolerance)
+            ok = rv is not None and ((kind == "nan" and rv != rv) or (kind == "val" and close(rv, val, rel=1e-6, abs_=1e-8)))
+            if not ok:
+                ctx.brk("correspondence-broken", f"v'_{n}{{{k}}} {sel} poi={poi} bin={edges} imaginary={imag}: code {rv!r} vs "
+                        f"functions generated from the source {out}", case=case)
+            # (2) against the private bin function itself (same angles as the driver: tight tolerance)
+            try:
+                pv = real_bin_private(pev, n, k, imag)
+            except NoPrivateAccess:
+                ctx.count("gdflow/skipped-no-private-access")
+                continue
+            except Exception as e:  # the private signature / layout is no longer what the translator derived
+                ctx.count(f"gdflow/skipped-private-call-failed-{type(e).__name__}")
+                continue
+            ctx.count("gdflow/private-compared")
+            ok = (kind == "nan" and pv != pv) or (kind == "val" and close(pv, val, rel=1e-9, abs_=1e-11))
+            if not ok:
+                ctx.brk("correspondence-broken", f"__compute_differential_flow_bin n={n} k={k} imaginary={imag}: code {pv!r} vs "
+                        f"functions generated from the source {out}", case=case)
         else:
             pev, rv, sel, poi, edges = data
             npoi = sum(1 for e in pev for _, f in e if f)
